@@ -418,7 +418,7 @@ def interleave_half(res):
             res.note_case(("line-interleave", origin, tuple(clock)), True)
     # two generators of one process (an engine has one for events and one for runs), each used by ONE thread: while A is
     # at line k of its generator, B obtains an identifier from the other one, a second later on the clock
-    n3, base = 0, 4 * 10 ** 9      # (beyond every second used earlier in this process, the real clock's included)
+    n3, base = 0, 10 ** 12         # (beyond every second used earlier in this process: the real clock, the 1e10 of the model cases)
     for origin in ("direct", "setup"):
         for clock0 in ([5, 5, 6, 6, 7], [5, 6, 6, 7, 7, 7], [5, 4, 4, 5, 6]):
             for ahead in (0, 1, 2):
